@@ -344,7 +344,7 @@ class BaseInterpolatablePreProcessor:
                 and f.options == filter_.options
                 and f.pre == filter_.pre
             )
-            for f in filters[1:]
+            for f in filters
         ):
             return None
 
